@@ -27,6 +27,9 @@ import collections
 
 VERIF = os.path.dirname(os.path.dirname(os.path.abspath(__file__)))
 REPO = os.environ.get('XV_REPO', '/repo')
+# where evidence/ and replays/ are written: /verif itself, or a scratch directory when a check is run against
+# a mutated copy of the repository (tools/mutants.py, tools/seeded.py) so that committed evidence is never clobbered
+OUT = os.environ.get('XV_OUT', VERIF)
 PYTHON = os.environ.get('XV_PYTHON', '/venv/bin/python')
 NPROC = int(os.environ.get('XV_NPROC', '16'))
 
@@ -339,7 +342,7 @@ def finish(mod, prop, tier, seed, results, lost, t0, out, replaying=False):
 
     replay_paths = []
     if real:
-        rdir = os.path.join(VERIF, 'replays')
+        rdir = os.path.join(OUT, 'replays')
         os.makedirs(rdir, exist_ok=True)
         seen_mech = collections.Counter()
         for v in real:
@@ -422,7 +425,7 @@ def write_evidence(mod, prop, tier, seed, evaluations, distinct, cells, events, 
         'wall_s': round(wall, 2),
         'violations': int(n_violations),
     }
-    edir = os.path.join(VERIF, 'evidence')
+    edir = os.path.join(OUT, 'evidence')
     os.makedirs(edir, exist_ok=True)
     path = os.path.join(edir, '%s.json' % prop)
     tmp = path + '.tmp'
